@@ -1,1 +1,1259 @@
-//! C12 - not built yet
+//! C12 - macro expansion and inclusion equal reference textual substitution.
+//!
+//! Reference-model monitor. Three workloads drive the REAL preprocessor (`rssl::preprocess::preprocess` +
+//! `prepare_tokens`, and `rssl::compile` for the third) and an oracle decides each execution:
+//!
+//!  1. macro programs   - oracle = `oracle::c12_refpp`, C99 6.10.3 written from the standard (hide sets);
+//!                        compared on the resulting token sequence (kind + spelling/value, no positions).
+//!  2. include graphs   - same oracle: #include = textual paste, a `#pragma once` file contributes once.
+//!  3. API defines      - differential oracle stated by the property: `compile(defines=[(N,V)..])` must be
+//!                        indistinguishable from the same file with `#define N V` lines in front, for EVERY
+//!                        split of the list between the two places (verdict + complete Ok payload).
+//!
+//! Developer switches (environment): VERIF_C12_NO_SUBSAMPLE=1 executes every program of the `painted-name-in-argument`
+//! family, VERIF_C12_SHOW_UNDECIDED=<substring> prints the programs the reference would not decide, VERIF_C12_TIMES=1
+//! adds time_us:* counters to the evidence.
+//!
+//! The generators stay inside the subset where C fully defines the result and where the property claims RSSL
+//! follows C; everything else is either not generated or answered `Undecided` by the reference and then
+//! skipped and counted (see `def().rule`).
+
+use crate::json::Json;
+use crate::oracle::c12_refpp::{self as refpp, Kind, RefOut};
+use crate::par::{self, Caught};
+use crate::report::{Ctx, Report};
+use crate::rng::{hash_str, Rng};
+use crate::rs::{self, Files, FilesHandler, Mode, Opts, Outcome, Tgt};
+use crate::CheckDef;
+use rssl::text::tokens::Token;
+
+pub fn def() -> CheckDef {
+    CheckDef {
+        id: "C12",
+        salt: 0xC12,
+        rule: "W1 macro programs: <= 6 #define lines over the names A1..F6 (object-like or 0-3 parameters), bodies <= 8 tokens over parameters, \
+               macro names (self, mutual, later-defined, undefined), identifiers, digits 1-9, punctuation incl. commas and balanced parentheses, \
+               and ## chains (identifier/digit fragments, binary punctuator pastes; results may name macros); #undef and redefinition between \
+               <= 10 single-line invocation sites with nested, parenthesised, comma-carrying, empty, unused and macro-valued arguments. \
+               W2 include graphs: main + <= 4 headers, each with/without #pragma once (first line or later), forward edges, diamonds, repeated \
+               includes, back/self edges into once-files, \"\" and <> forms, macro state flowing across file boundaries; one graph in six lives in \
+               directories a/ b/ (same base name twice, one file under two spellings; include handler = relative to the includer first, then as \
+               given, like the repository's own test handler). W3 API defines: a small shader using <= 4 object-like defines (ints, floats, \
+               expressions, type names, empty, references to each other, use in #if/#ifdef/defined(), as macro arguments, name built by ##, \
+               value pasted by ##, ## inside the value) compiled for every split of the list between compile(defines) and prepended #define \
+               lines, targets DirectX/Vulkan/Metal, with and without a pipeline. \
+               Decided subset: the reference runs BOTH accepted readings of C99 6.10.3.4 (Prosser's hide sets and the context stack of \
+               GCC/clang) and decides only where they agree. Skipped and counted (reference answers Undecided) or not generated: # stringification, \
+               `defined` outside #if, variadic macros, conditionals in W1/W2, a ## operand (body token, intermediate result of a ## chain, or any \
+               token of a pasted parameter's argument) that is a macro name, ## whose result is not one token or depends on the evaluation order \
+               of several ##, a function-like macro name (blue-painted or not) that takes its argument list from outside the replacement that \
+               produced it (unspecified in C, DR 268; RSSL pins its own rules in test_macro_recursion/test_concat), function-like names or \
+               unterminated argument lists at the end of a run of text lines, programs in which an UNUSED argument would not expand cleanly \
+               (RSSL expands arguments eagerly), incompatible-redefinition diagnostics (the property says redefinition replaces), keywords as \
+               macro names, files without final newline, results > 1000 tokens. Programs of the known-finding family `painted-name-in-argument` \
+               (18 % of W1; each unbounded expansion costs ~0.5 s) are executed one in six by content hash, the rest counted as skipped. \
+               evaluations = runs of the real preprocessor / compile() that were compared; distinct_nontrivial = distinct inputs (content hash \
+               of all files + define list) which the reference decided, rssl agreed on, and in which at least one macro was replaced / one file \
+               included / (W3) all splits agreed.",
+        assumptions: &[
+            "the reference preprocessor (oracle/c12_refpp.rs: C99 6.10.3 with Prosser's hide sets and, in parallel, the context-stack reading; decides only where both agree) is a correct reading of the standard for the generated subset",
+            "which file an #include names is decided by the include handler; the harness's handler (relative to the including file first, then as given; identity = resolved path) mirrors the handler of the repository's own tests",
+            "the step budget (100k + 150 x reference steps + result size squared, capped at 350k ticks; observed legitimate maximum 3-4 % of it) separates terminating from non-terminating expansion",
+            "token spelling used for comparison (identifier text, integer value, punctuator) loses nothing the property talks about; positions and white space are not compared",
+            "for workload 3 compile() is deterministic (C07) so that two runs may be compared byte for byte",
+        ],
+        min_distinct: (3000, 30000),
+        deadline_s: (50.0, 540.0),
+        run,
+        replay,
+    }
+}
+
+// ------------------------------------------------------------------------------------------------
+// Observation of the real preprocessor
+// ------------------------------------------------------------------------------------------------
+
+#[derive(Clone, Debug)]
+enum PpOut {
+    Ok(Vec<(Kind, String)>),
+    /// (variant name of PreprocessError, rendered diagnostic)
+    Diag(String, String),
+    Panic(Caught),
+    Budget(u32, u64),
+}
+
+/// Logical step budget for one small preprocessing run. Legal macro fan-out of the generated programs stays below
+/// 4000 output tokens (the reference gives up beyond that), which costs well under 10^6 ticks.
+const PP_BUDGET_BASE: u64 = 100_000;
+const PP_BUDGET_PER_STEP: u64 = 150;
+/// measured: the leanest unbounded recursion (KF-C12-2's witness) uses ~0.55 KB of stack per tick; 350k ticks = 190 MB
+const PP_BUDGET_CAP: u64 = 350_000;
+
+fn spell(t: &Token) -> (Kind, String) {
+    let p = |s: &str| (Kind::Punct, s.to_string());
+    match t {
+        Token::Id(id) => (Kind::Id, id.0.clone()),
+        Token::LiteralInt(v) => (Kind::Int, v.to_string()),
+        Token::LeftParen => p("("),
+        Token::RightParen => p(")"),
+        Token::LeftBrace => p("{"),
+        Token::RightBrace => p("}"),
+        Token::LeftSquareBracket => p("["),
+        Token::RightSquareBracket => p("]"),
+        Token::Semicolon => p(";"),
+        Token::Comma => p(","),
+        Token::Plus => p("+"),
+        Token::PlusPlus => p("++"),
+        Token::PlusEquals => p("+="),
+        Token::Minus => p("-"),
+        Token::MinusMinus => p("--"),
+        Token::MinusEquals => p("-="),
+        Token::ForwardSlash => p("/"),
+        Token::ForwardSlashEquals => p("/="),
+        Token::Percent => p("%"),
+        Token::PercentEquals => p("%="),
+        Token::Asterix => p("*"),
+        Token::AsterixEquals => p("*="),
+        Token::VerticalBar => p("|"),
+        Token::VerticalBarVerticalBar => p("||"),
+        Token::VerticalBarEquals => p("|="),
+        Token::Ampersand => p("&"),
+        Token::AmpersandAmpersand => p("&&"),
+        Token::AmpersandEquals => p("&="),
+        Token::Hat => p("^"),
+        Token::HatEquals => p("^="),
+        Token::Equals => p("="),
+        Token::EqualsEquals => p("=="),
+        Token::ExclamationPoint => p("!"),
+        Token::ExclamationPointEquals => p("!="),
+        Token::Tilde => p("~"),
+        Token::Period => p("."),
+        Token::Colon => p(":"),
+        Token::ScopeResolution => p("::"),
+        Token::QuestionMark => p("?"),
+        Token::HashHash => p("##"),
+        Token::Hash => p("#"),
+        other => (Kind::Str, format!("<{:?}>", other)),
+    }
+}
+
+thread_local! {
+    static PP_TICKS: std::cell::Cell<u64> = const { std::cell::Cell::new(0) };
+}
+
+fn run_rssl_pp(files: &Files, entry: &str, defines: &[(String, String)], budget: u64) -> PpOut {
+    let defs: Vec<(&str, &str)> = defines.iter().map(|(a, b)| (a.as_str(), b.as_str())).collect();
+    rssl::text::verif::reset(budget);
+    let r = par::guard(|| {
+        use rssl::text::CompileErrorExt;
+        let mut sm = rssl::text::SourceManager::new();
+        let mut h = FilesHandler::new(files);
+        match rssl::preprocess::preprocess(entry, &mut sm, &mut h, &defs) {
+            Ok(t) => Ok(rssl::preprocess::prepare_tokens(&t)),
+            Err(e) => {
+                let dbg = format!("{:?}", e);
+                let variant: String = dbg.chars().take_while(|c| c.is_ascii_alphanumeric()).collect();
+                Err((variant, format!("{}", e.display(&sm))))
+            }
+        }
+    });
+    let ticks = rssl::text::verif::ticks();
+    rssl::text::verif::reset(u64::MAX);
+    match r {
+        Ok(Ok(tokens)) => {
+            let mut v: Vec<(Kind, String)> = tokens.iter().map(|t| spell(&t.0)).collect();
+            // prepare_tokens terminates the stream with Eof
+            if matches!(tokens.last().map(|t| &t.0), Some(Token::Eof)) {
+                v.pop();
+            }
+            PP_TICKS.with(|t| t.set(ticks));
+            PpOut::Ok(v)
+        }
+        Ok(Err((variant, text))) => PpOut::Diag(variant, text),
+        Err(c) => match c.budget_site {
+            Some(site) => PpOut::Budget(site, ticks),
+            None => PpOut::Panic(c),
+        },
+    }
+}
+
+fn render(tokens: &[(Kind, String)]) -> String {
+    let mut s = String::new();
+    for (i, t) in tokens.iter().enumerate() {
+        if i > 0 {
+            s.push(' ');
+        }
+        s.push_str(&t.1);
+        if s.len() > 6000 {
+            s.push_str(" ...");
+            break;
+        }
+    }
+    s
+}
+
+fn files_hash(tag: &str, files: &Files, defines: &[(String, String)]) -> u64 {
+    let mut s = String::from(tag);
+    for (n, c) in &files.0 {
+        s.push('\u{1}');
+        s.push_str(n);
+        s.push('\u{2}');
+        s.push_str(c);
+    }
+    for (n, v) in defines {
+        s.push('\u{3}');
+        s.push_str(n);
+        s.push('=');
+        s.push_str(v);
+    }
+    hash_str(&s)
+}
+
+fn count_stats(report: &mut Report, w: &str, s: &refpp::Stats) {
+    let mut c = |k: &str, n: u64| {
+        if n > 0 {
+            report.count_n(&format!("{}:ref:{}", w, k), n);
+        }
+    };
+    c("object_like_replacements", s.object_expansions);
+    c("function_like_replacements", s.function_expansions);
+    for (i, n) in s.arity.iter().enumerate() {
+        c(&format!("invocations_with_{}_params", i), *n);
+    }
+    c("pastes", s.pastes);
+    c("paste_made_macro_name", s.paste_made_macro_name);
+    c("placemarkers", s.placemarkers);
+    c("blue_painted_names_met", s.painted);
+    c("blue_painted_names_met_in_arguments", s.painted_in_argument);
+    c("args_with_nested_parens", s.nested_paren_args);
+    c("commas_protected_by_parens", s.comma_in_paren_args);
+    c("empty_args", s.empty_args);
+    c("unused_args", s.unused_args);
+    c("args_containing_macros", s.args_with_macros);
+    c("function_like_name_without_parens", s.funlike_name_without_parens);
+    c("defines", s.defines);
+    c("redefinitions", s.redefinitions);
+    c("undef_effective", s.undefs_effective);
+    c("undef_of_undefined", s.undefs_noop);
+    c("includes", s.includes);
+    c("includes_skipped_by_pragma_once", s.includes_skipped_once);
+    c("includes_resolved_relative_to_includer", s.includes_resolved_relative);
+    c("includes_involving_directories", s.includes_involving_directories);
+    c("pragma_once_seen", s.pragma_once);
+    c("multi_line_invocations", s.multi_line_invocations);
+    report.max(&format!("max:{}:include_depth", w), s.max_include_depth);
+    report.max(&format!("max:{}:expansion_depth", w), s.max_expansion_depth);
+}
+
+/// The monitor of workloads 1 and 2: run reference and real preprocessor on the same files and compare
+const FAMILY_SUBSAMPLE: u64 = 6;
+
+fn examine_pp(w: &str, files: &Files, entry: &str, subsample: bool, report: &mut Report, extra: &dyn Fn() -> Json) {
+    let t0 = std::time::Instant::now();
+    let (expected, stats) = refpp::run(&files.0, entry, &[]);
+    let t1 = std::time::Instant::now();
+    // Step budget of the real run, derived from the work of the reference: linear in the tokens it examined plus
+    // quadratic in the size of the result (rssl rescans the replaced region from its start after every replacement).
+    // Capped so that an unbounded recursion runs into the budget long before it can exhaust the 256 MB worker stack.
+    let out_len = match &expected {
+        RefOut::Tokens(t) => t.len() as u64,
+        _ => 0,
+    };
+    let budget = (PP_BUDGET_BASE + PP_BUDGET_PER_STEP * stats.steps + out_len * out_len).min(PP_BUDGET_CAP);
+    if subsample && stats.painted_in_argument > 0 && files_hash(w, files, &[]) % FAMILY_SUBSAMPLE != 0 && std::env::var("VERIF_C12_NO_SUBSAMPLE").is_err() {
+        // Family of KF-C12-2/3/4 (a blue-painted name inside a function-like macro's argument). About 7 % of the generated
+        // programs are of this family and one unbounded expansion costs ~0.5 s before the step budget stops it, so only
+        // every FAMILY_SUBSAMPLE-th of them (by content hash) is executed; the others are counted here. Not a tolerance:
+        // the executed ones are judged like every other program.
+        report.count(&format!("{}:skipped:painted-name-in-argument-family-subsampled", w));
+        return;
+    }
+    let observed = run_rssl_pp(files, entry, &[], budget);
+    if std::env::var("VERIF_C12_TIMES").is_ok() {
+        report.count_n(&format!("time_us:{}:reference", w), (t1 - t0).as_micros() as u64);
+        report.count_n(&format!("time_us:{}:rssl:{}", w, pp_class(&observed)), t1.elapsed().as_micros() as u64);
+    }
+    report.evaluations += 1;
+    let witness = |exp: &str, obs: &str| {
+        let mut j = Json::obj().set("workload", w).set("entry", entry).set("files", files.to_json()).set("expected", exp).set("observed", obs);
+        if let Json::Obj(items) = extra() {
+            for (k, v) in items {
+                j.put(&k, v);
+            }
+        }
+        j
+    };
+    let exp_text = match &expected {
+        RefOut::Tokens(t) => render(t),
+        RefOut::Reject(r) => format!("<C requires a diagnostic: {}>", r),
+        RefOut::Undecided(r) => format!("<undecided: {}>", r),
+    };
+    // A panic or a blown step budget is a failed expansion whatever the reference thinks, unless the input is outside the subset
+    match (&expected, &observed) {
+        (RefOut::Undecided(class), _) => {
+            report.count(&format!("{}:skipped:reference-undecided:{}", w, class));
+            if let Ok(want) = std::env::var("VERIF_C12_SHOW_UNDECIDED") {
+                if class.contains(&want) {
+                    eprintln!("--- undecided {} (rssl: {})\n{}", class, pp_class(&observed), files.0.iter().map(|f| f.1.clone()).collect::<Vec<_>>().join("---\n"));
+                }
+            }
+            report.count(&format!("{}:skipped:rssl-said:{}", w, pp_class(&observed)));
+            return;
+        }
+        (RefOut::Reject(_), PpOut::Ok(_)) => {
+            // C demands a diagnostic, the property does not: counted, no verdict
+            report.count(&format!("{}:skipped:reference-rejects-rssl-accepts", w));
+            return;
+        }
+        (RefOut::Reject(_), PpOut::Diag(v, _)) => {
+            report.count(&format!("{}:agree:both-reject:{}", w, v));
+            return;
+        }
+        (RefOut::Reject(_), _) => {
+            report.count(&format!("{}:skipped:reference-rejects-rssl-{}", w, pp_class(&observed)));
+            return;
+        }
+        (RefOut::Tokens(_), _) => {}
+    }
+    let RefOut::Tokens(exp) = &expected else { unreachable!() };
+    let trivial = stats.object_expansions + stats.function_expansions + stats.includes == 0;
+    count_stats(report, w, &stats);
+    report.max(&format!("max:{}:output_tokens", w), exp.len() as u64);
+    match &observed {
+        PpOut::Ok(obs) => {
+            let ticks = PP_TICKS.with(|t| t.get());
+            report.max(&format!("max:{}:rssl_ticks", w), ticks);
+            report.max(&format!("max:{}:rssl_ticks_per_100_reference_steps", w), ticks * 100 / stats.steps.max(1));
+            report.max(&format!("max:{}:percent_of_step_budget_used", w), ticks * 100 / budget);
+            if obs == exp {
+                report.count(&format!("{}:agree:tokens-equal", w));
+                if !trivial {
+                    report.distinct(files_hash(w, files, &[]));
+                    if report.want_sample() && (report.samples.len() as u64) < 2 + (hash_str(&exp_text) % 2) {
+                        report.sample(witness(&exp_text, &render(obs)));
+                    }
+                } else {
+                    report.count(&format!("{}:trivial", w));
+                }
+            } else {
+                let class = classify_mismatch(&stats, exp, obs);
+                report.violation(
+                    &match family(&stats) {
+                        Some(f) => format!("{}:{}:tokens-differ", w, f),
+                        None => format!("{}:tokens-differ:{}", w, class),
+                    },
+                    &format!("{} program expands to `{}` in rssl, C99 6.10.3 gives `{}`", w, clip(&render(obs), 160), clip(&exp_text, 160)),
+                    witness(&exp_text, &render(obs)),
+                );
+            }
+        }
+        PpOut::Diag(variant, text) => {
+            report.violation(
+                &match family(&stats) {
+                    Some(f) => format!("{}:{}:rejected", w, f),
+                    None => format!("{}:rejected:{}", w, variant),
+                },
+                &format!("{} program which C99 expands to `{}` is rejected: {}", w, clip(&exp_text, 120), clip(text.lines().next().unwrap_or(""), 120)),
+                witness(&exp_text, &format!("<diagnostic {}: {}>", variant, text)),
+            );
+        }
+        PpOut::Panic(c) => {
+            report.violation(
+                &format!("{}:panic:{}", w, c.signature()),
+                &format!("{} program which C99 expands to `{}` panics at {}: {}", w, clip(&exp_text, 120), c.location, clip(&c.message, 120)),
+                witness(&exp_text, &format!("<panic at {}: {}>", c.location, c.message)),
+            );
+        }
+        PpOut::Budget(site, ticks) => {
+            if exp.len() > 600 {
+                report.count(&format!("{}:skipped:step-budget-on-large-expansion", w));
+                return;
+            }
+            report.violation(
+                &match family(&stats) {
+                    Some(f) => format!("{}:{}:does-not-terminate", w, f),
+                    None => format!("{}:does-not-terminate", w),
+                },
+                &format!(
+                    "{} program which C99 expands to {} tokens exceeds the step budget of {} (site {}, {} ticks): expansion does not terminate in bounded work",
+                    w,
+                    exp.len(),
+                    budget,
+                    site,
+                    ticks
+                ),
+                witness(&exp_text, &format!("<step budget exceeded at site {} after {} ticks>", site, ticks)),
+            );
+        }
+    }
+}
+
+/// The construct (as seen by the reference) that names the known-finding families of workload 1. The signature of a
+/// violation carries it, so that an open finding tolerates nothing but failures on programs containing its construct.
+fn family(stats: &refpp::Stats) -> Option<&'static str> {
+    if stats.includes_involving_directories > 0 {
+        return Some("directories");
+    }
+    match (stats.painted_in_argument > 0, stats.placemarkers > 0) {
+        (true, true) => Some("painted-name-in-argument+paste-with-empty-argument"),
+        (true, false) => Some("painted-name-in-argument"),
+        (false, true) => Some("paste-with-empty-argument"),
+        (false, false) => None,
+    }
+}
+
+fn pp_class(o: &PpOut) -> String {
+    match o {
+        PpOut::Ok(_) => "ok".into(),
+        PpOut::Diag(v, _) => format!("diagnostic-{}", v),
+        PpOut::Panic(_) => "panic".into(),
+        PpOut::Budget(..) => "budget".into(),
+    }
+}
+
+fn clip(s: &str, n: usize) -> String {
+    if s.chars().count() <= n {
+        s.to_string()
+    } else {
+        let mut t: String = s.chars().take(n).collect();
+        t.push_str("...");
+        t
+    }
+}
+
+/// Coarse but stable class of a token mismatch, from what the reference did on that input
+fn classify_mismatch(stats: &refpp::Stats, exp: &[(Kind, String)], obs: &[(Kind, String)]) -> &'static str {
+    if stats.includes > 0 {
+        if stats.includes_skipped_once > 0 {
+            return "include-with-pragma-once";
+        }
+        return "include";
+    }
+    if stats.painted > 0 {
+        return "self-or-mutual-reference";
+    }
+    if stats.pastes > 0 {
+        return "paste";
+    }
+    if stats.funlike_name_without_parens > 0 {
+        return "function-like-name-without-parens";
+    }
+    if stats.empty_args > 0 {
+        return "empty-argument";
+    }
+    if obs.len() != exp.len() {
+        return "substitution-length";
+    }
+    "substitution"
+}
+
+// ------------------------------------------------------------------------------------------------
+// Workload 1: macro programs
+// ------------------------------------------------------------------------------------------------
+
+const NAMES: [&str; 6] = ["A1", "B2", "C3", "D4", "E5", "F6"];
+/// paste fodder: LETTERS[i] ## digit(i+1) = NAMES[i]; the letters alone are never macro names
+const LETTERS: [&str; 6] = ["A", "B", "C", "D", "E", "F"];
+const PLAIN: [&str; 5] = ["u", "v", "w", "k", "t"];
+const PARAMS: [&str; 3] = ["x", "y", "z"];
+const PUNCT1: [&str; 9] = ["+", "-", "*", "=", ".", "!", ",", ";", "&"];
+
+#[derive(Clone, Copy, PartialEq, Debug)]
+enum Role {
+    /// never next to ##
+    Plain,
+    /// pasted; the argument is one identifier that is no macro name
+    PId,
+    /// pasted on the right; the argument is one identifier or digit
+    PAny,
+    /// pasted inside an all-digit chain
+    PInt,
+}
+
+#[derive(Clone, Debug)]
+struct Shape {
+    /// None = object-like
+    params: Option<Vec<Role>>,
+}
+
+struct MacroGen<'r> {
+    rng: &'r mut Rng,
+    planned: Vec<Shape>,
+}
+
+fn digit(rng: &mut Rng) -> String {
+    if rng.chance(1, 5) {
+        format!("{}{}", rng.range(1, 9), rng.range(1, 9))
+    } else {
+        format!("{}", rng.range(1, 6))
+    }
+}
+
+impl<'r> MacroGen<'r> {
+    fn shape(rng: &mut Rng) -> Shape {
+        if rng.chance(2, 5) {
+            return Shape { params: None };
+        }
+        let k = [0usize, 1, 1, 2, 2, 3][rng.below(6)];
+        let mut roles = Vec::new();
+        for _ in 0..k {
+            roles.push(match rng.below(10) {
+                0..=5 => Role::Plain,
+                6 => Role::PId,
+                7 | 8 => Role::PAny,
+                _ => Role::PInt,
+            });
+        }
+        Shape { params: Some(roles) }
+    }
+
+    /// One argument for parameter `role` of some macro; `in_body` = parameters of the macro being defined (may be used)
+    fn arg(&mut self, role: Role, in_body: Option<&Shape>, depth: usize) -> Vec<String> {
+        let rng = &mut *self.rng;
+        let body_param = |rng: &mut Rng, want: &[Role]| -> Option<String> {
+            let ps = in_body?.params.as_ref()?;
+            let c: Vec<usize> = (0..ps.len()).filter(|i| want.contains(&ps[*i])).collect();
+            if c.is_empty() {
+                None
+            } else {
+                Some(PARAMS[c[rng.below(c.len())]].to_string())
+            }
+        };
+        // an empty argument for a pasted parameter (placemarker, 6.10.3.3p2) - kept rare, family of KF-C12-5/6
+        if role != Role::Plain && rng.chance(1, 80) {
+            return Vec::new();
+        }
+        match role {
+            Role::PId => {
+                // a pasted parameter of the inner macro receives the caller's argument *unexpanded*: only plain parameters'
+                // (fully expanded) values or literal fragments are passed, and the reference refuses macro names in them
+                if rng.chance(1, 4) {
+                    if let Some(p) = body_param(rng, &[Role::PId]) {
+                        return vec![p];
+                    }
+                }
+                if rng.chance(4, 5) {
+                    vec![rng.pick(&LETTERS).to_string()]
+                } else {
+                    vec![rng.pick(&PLAIN).to_string()]
+                }
+            }
+            Role::PAny => {
+                if rng.chance(1, 4) {
+                    if let Some(p) = body_param(rng, &[Role::PId, Role::PAny, Role::PInt]) {
+                        return vec![p];
+                    }
+                }
+                if rng.chance(1, 2) {
+                    vec![rng.pick(&LETTERS).to_string()]
+                } else {
+                    vec![digit(rng)]
+                }
+            }
+            Role::PInt => {
+                if rng.chance(1, 4) {
+                    if let Some(p) = body_param(rng, &[Role::PInt]) {
+                        return vec![p];
+                    }
+                }
+                vec![digit(rng)]
+            }
+            Role::Plain => {
+                let pick = rng.below(100);
+                if pick < 20 {
+                    if let Some(p) = body_param(rng, &[Role::Plain, Role::Plain, Role::PId, Role::PAny, Role::PInt]) {
+                        return vec![p];
+                    }
+                }
+                if pick < 35 {
+                    return vec![rng.pick(&PLAIN).to_string()];
+                }
+                if pick < 45 {
+                    return vec![digit(rng)];
+                }
+                if pick < 75 && depth < 2 {
+                    let j = rng.below(NAMES.len());
+                    return self.invocation(j, in_body, depth + 1);
+                }
+                if pick < 83 {
+                    // parenthesised, with a protected comma
+                    let a = self.arg(Role::Plain, in_body, depth + 2);
+                    let b = self.arg(Role::Plain, in_body, depth + 2);
+                    let mut v = vec!["(".to_string()];
+                    v.extend(a);
+                    if self.rng.chance(2, 3) {
+                        v.push(",".into());
+                        v.extend(b);
+                    }
+                    v.push(")".into());
+                    return v;
+                }
+                if pick < 91 {
+                    let a = self.arg(Role::Plain, in_body, depth + 2);
+                    let mut v = a;
+                    v.push(self.rng.pick(&["+", "-", "*", "="]).to_string());
+                    v.push(digit(self.rng));
+                    return v;
+                }
+                if pick < 95 {
+                    return Vec::new(); // empty argument
+                }
+                if pick < 98 {
+                    // a macro name alone (object-like is replaced; function-like without parentheses is not an invocation)
+                    return vec![NAMES[self.rng.below(NAMES.len())].to_string()];
+                }
+                vec![self.rng.pick(&LETTERS).to_string()]
+            }
+        }
+    }
+
+    /// Tokens of an invocation of NAMES[j] according to its planned shape
+    fn invocation(&mut self, j: usize, in_body: Option<&Shape>, depth: usize) -> Vec<String> {
+        let shape = self.planned[j].clone();
+        let mut v = vec![NAMES[j].to_string()];
+        if let Some(roles) = &shape.params {
+            v.push("(".into());
+            for (i, r) in roles.iter().enumerate() {
+                if i > 0 {
+                    v.push(",".into());
+                }
+                v.extend(self.arg(*r, in_body, depth));
+            }
+            v.push(")".into());
+        }
+        v
+    }
+
+    fn paste_chain(&mut self, shape: &Shape) -> Vec<String> {
+        let rng = &mut *self.rng;
+        if rng.chance(1, 12) {
+            // punctuator pastes, binary only (the result of a longer chain would depend on evaluation order)
+            let (a, b) = *rng.pick(&[("+", "+"), ("-", "-"), ("=", "="), ("+", "="), ("-", "="), ("!", "="), ("&", "&"), ("*", "=")]);
+            return vec![a.into(), "##".into(), b.into()];
+        }
+        let params: Vec<(usize, Role)> = match &shape.params {
+            Some(ps) => ps.iter().cloned().enumerate().filter(|(_, r)| *r != Role::Plain).collect(),
+            None => Vec::new(),
+        };
+        let n = if rng.chance(1, 4) { 3 } else { 2 };
+        let all_int = rng.chance(1, 5);
+        let mut v: Vec<String> = Vec::new();
+        for pos in 0..n {
+            if pos > 0 {
+                v.push("##".into());
+            }
+            let ok_roles: &[Role] = if all_int {
+                &[Role::PInt]
+            } else if pos == 0 {
+                &[Role::PId]
+            } else {
+                &[Role::PId, Role::PAny, Role::PInt]
+            };
+            let c: Vec<usize> = params.iter().filter(|(_, r)| ok_roles.contains(r)).map(|(i, _)| *i).collect();
+            if !c.is_empty() && rng.chance(3, 5) {
+                v.push(PARAMS[c[rng.below(c.len())]].to_string());
+            } else if all_int {
+                v.push(digit(rng));
+            } else if pos == 0 {
+                v.push(rng.pick(&LETTERS).to_string());
+            } else if rng.chance(2, 3) {
+                v.push(format!("{}", rng.range(1, 6)));
+            } else {
+                v.push(rng.pick(&LETTERS).to_string());
+            }
+        }
+        v
+    }
+
+    fn body(&mut self, me: usize, shape: &Shape) -> Vec<String> {
+        let target = 1 + self.rng.below(8);
+        let mut body: Vec<String> = Vec::new();
+        let nparams = shape.params.as_ref().map(|p| p.len()).unwrap_or(0);
+        let has_pasted = shape.params.as_ref().map(|p| p.iter().any(|r| *r != Role::Plain)).unwrap_or(false);
+        let mut tries = 0;
+        while body.len() < target && tries < 20 {
+            tries += 1;
+            let pick = self.rng.below(100);
+            let elem: Vec<String> = if pick < 22 && nparams > 0 {
+                // a plain use of a parameter (pasted parameters may also appear un-pasted: they are then fully expanded)
+                let i = self.rng.below(nparams);
+                vec![PARAMS[i].to_string()]
+            } else if pick < 50 {
+                let j = if self.rng.chance(1, 5) { me } else { self.rng.below(NAMES.len()) };
+                self.invocation(j, Some(shape), 1)
+            } else if pick < 60 {
+                vec![self.rng.pick(&PLAIN).to_string()]
+            } else if pick < 66 {
+                vec![digit(self.rng)]
+            } else if pick < 76 {
+                vec![self.rng.pick(&PUNCT1).to_string()]
+            } else if pick < 82 {
+                // balanced group
+                let mut v = vec!["(".to_string()];
+                if nparams > 0 && self.rng.chance(1, 2) {
+                    v.push(PARAMS[self.rng.below(nparams)].to_string());
+                } else {
+                    v.push(self.rng.pick(&PLAIN).to_string());
+                }
+                v.push(")".into());
+                v
+            } else if pick < 97 || has_pasted {
+                self.paste_chain(shape)
+            } else {
+                vec![self.rng.pick(&LETTERS).to_string()]
+            };
+            if body.len() + elem.len() <= 8 {
+                body.extend(elem);
+            }
+        }
+        body
+    }
+
+    fn define_line(&mut self, i: usize) -> String {
+        let shape = self.planned[i].clone();
+        let body = self.body(i, &shape);
+        let mut s = format!("#define {}", NAMES[i]);
+        if let Some(ps) = &shape.params {
+            s.push('(');
+            for p in 0..ps.len() {
+                if p > 0 {
+                    s.push_str(if self.rng.chance(1, 2) { ", " } else { "," });
+                }
+                s.push_str(PARAMS[p]);
+            }
+            s.push(')');
+        }
+        s.push(' ');
+        s.push_str(&join_tokens(&body, self.rng));
+        s
+    }
+}
+
+/// Join tokens with blanks; omit the blank now and then where that cannot merge or split tokens
+fn join_tokens(tokens: &[String], rng: &mut Rng) -> String {
+    let wordy = |x: &str| x.chars().next().map(|c| c.is_ascii_alphanumeric() || c == '_').unwrap_or(false);
+    let bracket = |x: &str| matches!(x, "(" | ")" | "," | ";");
+    let mut s = String::new();
+    for (i, t) in tokens.iter().enumerate() {
+        if i > 0 {
+            let prev = tokens[i - 1].as_str();
+            let t = t.as_str();
+            let may_glue = if wordy(prev) != wordy(t) { prev != "." && t != "." } else { !wordy(prev) && (bracket(prev) || bracket(t)) };
+            if !(may_glue && rng.chance(1, 3)) {
+                s.push(' ');
+            }
+        }
+        s.push_str(t);
+    }
+    s
+}
+
+fn gen_macro_program(rng: &mut Rng) -> String {
+    let planned: Vec<Shape> = (0..NAMES.len()).map(|_| MacroGen::shape(rng)).collect();
+    let mut g = MacroGen { rng, planned };
+    let total_defs = 2 + g.rng.below(5); // 2..=6 #define lines
+    let total_sites = 3 + g.rng.below(8); // 3..=10 invocation sites
+    let mut defined = [false; 6];
+    let mut lines: Vec<String> = Vec::new();
+    let (mut ndefs, mut nsites) = (0, 0);
+    let first = 1 + g.rng.below(total_defs.min(3));
+    while ndefs < total_defs || nsites < total_sites {
+        let want_def = ndefs < total_defs && (ndefs < first || nsites >= total_sites || g.rng.chance(1, 3));
+        if want_def {
+            // mostly a new name, sometimes a redefinition (same or new shape)
+            let undefined: Vec<usize> = (0..6).filter(|i| !defined[*i]).collect();
+            let i = if !undefined.is_empty() && g.rng.chance(3, 4) { undefined[g.rng.below(undefined.len())] } else { g.rng.below(6) };
+            if defined[i] && g.rng.chance(1, 6) {
+                g.planned[i] = MacroGen::shape(g.rng);
+            }
+            let line = g.define_line(i);
+            lines.push(line);
+            defined[i] = true;
+            ndefs += 1;
+            continue;
+        }
+        if g.rng.chance(1, 9) {
+            let i = g.rng.below(6);
+            lines.push(format!("#undef {}", NAMES[i]));
+            defined[i] = false;
+            continue;
+        }
+        // an invocation site: one line, terminated by ';' so that nothing reaches into the next line
+        let mut toks: Vec<String> = vec![format!("s{}", nsites), "=".into()];
+        let terms = 1 + g.rng.below(3);
+        for t in 0..terms {
+            if t > 0 {
+                toks.push(g.rng.pick(&["+", "*", "-", ","]).to_string());
+            }
+            let live: Vec<usize> = (0..6).filter(|i| defined[*i]).collect();
+            let pick = g.rng.below(10);
+            if pick < 8 && !live.is_empty() {
+                let j = live[g.rng.below(live.len())];
+                toks.extend(g.invocation(j, None, 0));
+            } else if pick < 9 {
+                let j = g.rng.below(6);
+                toks.extend(g.invocation(j, None, 0));
+            } else {
+                toks.push(g.rng.pick(&PLAIN).to_string());
+            }
+        }
+        toks.push(";".into());
+        lines.push(join_tokens(&toks, g.rng));
+        nsites += 1;
+    }
+    let mut s = lines.join("\n");
+    s.push('\n');
+    s
+}
+
+// ------------------------------------------------------------------------------------------------
+// Workload 2: include graphs
+// ------------------------------------------------------------------------------------------------
+
+fn gen_include_graph(rng: &mut Rng) -> Files {
+    let nheaders = 1 + rng.below(4);
+    // one graph in six lives in directories: same base name in two directories, and one file reachable under two spellings
+    // (relative to the includer / from the root) - family of KF-C12-11
+    let dirs = rng.chance(1, 6);
+    let shared_base = dirs && rng.chance(1, 2);
+    let paths: Vec<String> = (0..=nheaders)
+        .map(|i| {
+            if i == 0 {
+                "main.rssl".to_string()
+            } else if !dirs {
+                format!("h{}.h", i)
+            } else {
+                let dir = ["a", "b", ""][rng.below(3)];
+                let base = if shared_base && rng.chance(1, 2) { "c.h".to_string() } else { format!("h{}.h", i) };
+                if dir.is_empty() {
+                    base
+                } else {
+                    format!("{}/{}", dir, base)
+                }
+            }
+        })
+        .collect();
+    // two headers must not be the same file
+    let paths: Vec<String> = paths.iter().enumerate().map(|(i, p)| if paths[..i].contains(p) { format!("h{}.h", i) } else { p.clone() }).collect();
+    let dir_of = |p: &str| p.rfind('/').map(|k| p[..k].to_string()).unwrap_or_default();
+    // How file i spells file j: relative to its own directory when they share one (two times in three), else from the root.
+    // The spelling is checked against the handler's rule (relative to the includer first, then as given): when it would
+    // denote another file (a sibling shadowing a root file) the edge is dropped, so the graph keeps its forward-only shape.
+    let spellings: Vec<Vec<Option<String>>> = (0..=nheaders)
+        .map(|i| {
+            (0..=nheaders)
+                .map(|j| {
+                    let (di, dj) = (dir_of(&paths[i]), dir_of(&paths[j]));
+                    let base = paths[j].rsplit('/').next().unwrap().to_string();
+                    let s = if di == dj && !di.is_empty() && rng.chance(2, 3) { base } else { paths[j].clone() };
+                    let relative = if di.is_empty() { s.clone() } else { format!("{}/{}", di, s) };
+                    let resolved = if paths.contains(&relative) { relative } else { s.clone() };
+                    if resolved == paths[j] {
+                        Some(s)
+                    } else {
+                        None
+                    }
+                })
+                .collect()
+        })
+        .collect();
+    let name = |i: usize, j: usize| -> Option<String> { spellings[i][j].clone() };
+    let once: Vec<bool> = (0..=nheaders).map(|i| i > 0 && rng.chance(1, 2)).collect();
+    let once_first: Vec<bool> = (0..=nheaders).map(|i| once[i] && rng.chance(5, 6)).collect();
+    let mut files = Vec::new();
+    for i in 0..=nheaders {
+        let mut lines: Vec<String> = Vec::new();
+        let mut text_n = 0;
+        let nlines = if i == 0 { 3 + rng.below(5) } else { 1 + rng.below(5) };
+        let once_at = if once_first[i] {
+            0
+        } else if once[i] {
+            1 + rng.below(nlines)
+        } else {
+            usize::MAX
+        };
+        for l in 0..nlines {
+            if l == once_at {
+                lines.push("#pragma once".into());
+            }
+            let pick = rng.below(100);
+            if pick < 42 {
+                // include: forward edge, or (rarely) self/back edge into a file whose #pragma once is on its first line
+                let forward: Vec<usize> = ((i + 1)..=nheaders).collect();
+                let back: Vec<usize> = if dirs { Vec::new() } else { (1..=i).filter(|j| once_first[*j]).collect() };
+                let target = if !back.is_empty() && (forward.is_empty() || rng.chance(1, 6)) {
+                    Some(back[rng.below(back.len())])
+                } else if !forward.is_empty() {
+                    Some(forward[rng.below(forward.len())])
+                } else {
+                    None
+                };
+                // (a back edge only terminates because its target is already marked when it is re-entered)
+                if let Some(spelled) = target.and_then(|j| name(i, j)) {
+                    if rng.chance(1, 6) {
+                        lines.push(format!("#include <{}>", spelled));
+                    } else if rng.chance(1, 5) {
+                        lines.push(format!("#include\"{}\"", spelled));
+                    } else {
+                        lines.push(format!("#include \"{}\"", spelled));
+                    }
+                    continue;
+                }
+            }
+            if pick < 60 {
+                // visible text naming file and line
+                lines.push(format!("t{}_{} ;", i, text_n));
+                text_n += 1;
+            } else if pick < 72 {
+                // macro state crossing file boundaries
+                lines.push(format!("#define V v{}_{}", i, l));
+            } else if pick < 80 {
+                lines.push("#undef V".into());
+            } else if pick < 90 {
+                lines.push(format!("V + W ( {} ) ;", i));
+            } else {
+                lines.push(format!("#define W(x) w{} x V", i));
+            }
+        }
+        if once_at != usize::MAX && once_at >= nlines {
+            lines.push("#pragma once".into());
+        }
+        let mut s = lines.join("\n");
+        s.push('\n');
+        files.push((paths[i].clone(), s));
+    }
+    // back edges must hit files whose pragma once is first: files with a late pragma are only reached by forward edges
+    // (checked above through `safe`); main always includes something
+    if !files[0].1.contains("#include") {
+        let j = 1 + rng.below(nheaders);
+        files[0].1.push_str(&format!("#include \"{}\"\nV ;\n", paths[j]));
+    }
+    Files(files)
+}
+
+// ------------------------------------------------------------------------------------------------
+// Workload 3: API defines versus #define lines
+// ------------------------------------------------------------------------------------------------
+
+#[derive(Clone, Debug)]
+struct DefCase {
+    text: String,
+    defines: Vec<(String, String)>,
+    target: Tgt,
+    mode: Mode,
+    /// the program pastes the *value* of a define (known finding KF-C12-1 lives here and nowhere else)
+    pastes_define_value: bool,
+    /// the value of a define contains ## itself (known finding KF-C12-7 lives here and nowhere else)
+    value_has_paste: bool,
+}
+
+fn gen_define_case(rng: &mut Rng) -> DefCase {
+    let n = 1 + rng.below(4);
+    let mut defines: Vec<(String, String)> = Vec::new();
+    // roles: what the program does with the define
+    #[derive(Clone, Copy, PartialEq)]
+    enum R {
+        Int,
+        Float,
+        Type,
+        Empty,
+        Flag,
+    }
+    let mut roles = Vec::new();
+    // value is a single integer literal (possibly through another define): usable in #if, whose parser has no arithmetic
+    let mut simple: Vec<bool> = Vec::new();
+    let names = ["N0", "N1", "N2", "N3"];
+    for i in 0..n {
+        let role = *rng.pick(&[R::Int, R::Int, R::Float, R::Type, R::Empty, R::Flag]);
+        let earlier_int: Vec<usize> = (0..i).filter(|j| roles[*j] == R::Int).collect();
+        let mut is_simple = false;
+        let value = match role {
+            R::Int => match rng.below(7) {
+                0 | 1 => {
+                    is_simple = true;
+                    format!("{}", rng.range(1, 64))
+                }
+                2 => format!("({} + {})", rng.range(1, 9), rng.range(1, 9)),
+                3 => format!("{} * {}", rng.range(1, 9), rng.range(1, 9)),
+                4 if !earlier_int.is_empty() => format!("({} + {})", names[earlier_int[rng.below(earlier_int.len())]], rng.range(1, 5)),
+                5 if !earlier_int.is_empty() => {
+                    let j = earlier_int[rng.below(earlier_int.len())];
+                    is_simple = simple[j];
+                    names[j].to_string()
+                }
+                _ => {
+                    is_simple = true;
+                    format!("{}u", rng.range(1, 32))
+                }
+            },
+            R::Float => rng.pick(&["1.5", "0.25f", "2.0", "(1.0 + 0.5)", "3"]).to_string(),
+            R::Type => rng.pick(&["float", "uint", "int", "float2"]).to_string(),
+            R::Empty => rng.pick(&["", "", " ", "static"]).to_string(),
+            R::Flag => rng.pick(&["1", "0", "", "(1)"]).to_string(),
+        };
+        roles.push(role);
+        simple.push(is_simple);
+        defines.push((names[i].to_string(), value));
+    }
+    // only programs of this sub-family paste the tokens of a define's *value* (rssl macro-replaces an argument before
+    // pasting it): KF-C12-1 lives here and nowhere else
+    let pastes_define_value = rng.chance(1, 20) && roles.iter().zip(simple.iter()).any(|(r, s)| *r == R::Int && *s);
+    // ... and of this one have a ## inside a define's value (`#define N0 1 ## 2` is 12)
+    let mut value_has_paste = false;
+    if !pastes_define_value && rng.chance(1, 25) {
+        if let Some(i) = (0..n).find(|i| roles[*i] == R::Int) {
+            defines[i].1 = format!("{} ## {}", rng.range(1, 9), rng.range(1, 9));
+            simple[i] = false;
+            value_has_paste = true;
+        }
+    }
+    let mut t = String::new();
+    t.push_str("#define MUL(a, b) ((a) * (b))\n#define CAT(a, b) a##b\n");
+    t.push_str("struct S { float a; uint b; };\n");
+    let mut body = String::new();
+    for i in 0..n {
+        let nm = names[i];
+        match roles[i] {
+            R::Int => {
+                match rng.below(4) {
+                    0 => body.push_str(&format!("    acc += (float)({});\n", nm)),
+                    1 => body.push_str(&format!("    acc += (float)MUL({}, 3);\n", nm)),
+                    // the paste *builds the name*; the define itself is only replaced afterwards
+                    2 => body.push_str(&format!("    acc += (float)(CAT(N, {}));\n", i)),
+                    _ => body.push_str(&format!("    uint l{} = {};\n    acc += (float)l{};\n", i, nm, i)),
+                }
+                if simple[i] && rng.chance(1, 2) {
+                    t.push_str(&format!("#if {} > 4\nstatic const uint K{} = 1;\n#else\nstatic const uint K{} = 2;\n#endif\n", nm, i, i));
+                    body.push_str(&format!("    acc += (float)K{};\n", i));
+                }
+                if pastes_define_value && simple[i] {
+                    // macro-replaced argument: the tokens of the define's value are pasted
+                    if defines[i].1.ends_with('u') {
+                        body.push_str(&format!("    acc += (float)(CAT(1, {}));\n", nm));
+                    } else {
+                        body.push_str(&format!("    acc += (float)(CAT({}, 1));\n", nm));
+                    }
+                }
+            }
+            R::Float => body.push_str(&format!("    acc = acc * {} + MUL({}, 2.0);\n", nm, nm)),
+            R::Type => body.push_str(&format!("    {} v{} = ({})1;\n    acc += (float)v{};\n", nm, i, nm, i)),
+            R::Empty => t.push_str(&format!("{} float g{}(float p) {{ return p + 1.0; }}\n", nm, i)),
+            R::Flag => {
+                t.push_str(&format!("#ifdef {}\nstatic const uint F{} = 3;\n#else\nstatic const uint F{} = 4;\n#endif\n", nm, i, i));
+                t.push_str(&format!("#if defined({}) && !defined(UNSET{})\nstatic const uint G{} = 5;\n#endif\n", nm, i, i));
+                body.push_str(&format!("    acc += (float)(F{} + G{});\n", i, i));
+            }
+        }
+    }
+    let entry = rng.chance(2, 3);
+    t.push_str("float f(float x) {\n    float acc = x;\n");
+    t.push_str(&body);
+    t.push_str("    return acc;\n}\n");
+    if entry {
+        t.push_str("RWByteAddressBuffer g_out;\nvoid CSMAIN(uint3 dtid : SV_DispatchThreadID) {\n    g_out.Store(0, asuint(f((float)dtid.x)));\n}\nPipeline P\n{\n    ComputeShader = CSMAIN;\n}\n");
+    }
+    DefCase {
+        text: t,
+        defines,
+        target: *rng.pick(&[Tgt::Dx, Tgt::Vk, Tgt::Msl]),
+        mode: if entry { Mode::All } else { Mode::NoPipeline },
+        pastes_define_value,
+        value_has_paste,
+    }
+}
+
+fn defcase_json(c: &DefCase) -> Json {
+    Json::obj()
+        .set("workload", "defines")
+        .set("text", &c.text)
+        .set("defines", Json::Arr(c.defines.iter().map(|(a, b)| Json::Arr(vec![Json::str(a), Json::str(b)])).collect()))
+        .set("target", c.target.name())
+        .set("mode", c.mode.name())
+        .set("pastes_define_value", c.pastes_define_value)
+        .set("value_has_paste", c.value_has_paste)
+}
+
+fn defcase_from_json(j: &Json) -> DefCase {
+    let mut defines = Vec::new();
+    if let Some(d) = j.get("defines").and_then(|d| d.as_arr()) {
+        for kv in d {
+            if let Some(kv) = kv.as_arr() {
+                if kv.len() == 2 {
+                    defines.push((kv[0].as_str().unwrap_or("").to_string(), kv[1].as_str().unwrap_or("").to_string()));
+                }
+            }
+        }
+    }
+    DefCase {
+        text: j.get_str("text").unwrap_or("").to_string(),
+        defines,
+        target: Tgt::from_name(j.get_str("target").unwrap_or("")),
+        mode: Mode::from_name(j.get_str("mode").unwrap_or("all")),
+        pastes_define_value: j.get("pastes_define_value").and_then(|v| v.as_bool()).unwrap_or(false),
+        value_has_paste: j.get("value_has_paste").and_then(|v| v.as_bool()).unwrap_or(false),
+    }
+}
+
+/// Everything compile() returns for a successful run, as comparable text
+fn payload(o: &Outcome) -> String {
+    o.observable()
+}
+
+fn examine_defines(case: &DefCase, report: &mut Report) {
+    let n = case.defines.len();
+    // baseline = all defines as #define lines in front of the first line (the property's own reading)
+    let compile_split = |mask: usize| -> (Outcome, String) {
+        let mut text = String::new();
+        let mut api = Vec::new();
+        for (i, (name, value)) in case.defines.iter().enumerate() {
+            if mask & (1 << i) != 0 {
+                api.push((name.clone(), value.clone()));
+            } else {
+                text.push_str(&format!("#define {} {}\n", name, value));
+            }
+        }
+        text.push_str(&case.text);
+        let mut opts = Opts::new(case.target, case.mode.clone());
+        opts.defines = api;
+        opts.budget = 50_000_000;
+        (rs::compile(&Files::single("main.rssl", &text), "main.rssl", &opts), text)
+    };
+    let (base, _) = compile_split(0);
+    report.evaluations += 1;
+    report.count(&format!("defines:baseline:{}", base.class()));
+    if let Outcome::Diag(d) = &base {
+        report.count(&format!("defines:baseline-diagnostic:{}", clip(d.lines().next().unwrap_or(""), 60)));
+    }
+    if matches!(base, Outcome::Panic(_) | Outcome::Budget { .. }) {
+        // not this property's business when no API define is involved (C08)
+        report.count("defines:skipped:baseline-panics");
+        return;
+    }
+    let base_payload = payload(&base);
+    let mut all_equal = true;
+    for mask in 1..(1usize << n) {
+        let (o, text) = compile_split(mask);
+        report.evaluations += 1;
+        report.count(&format!("defines:split:{}-of-{}-on-api", mask.count_ones(), n));
+        let same_verdict = o.class() == base.class();
+        let same = same_verdict && (base.ok().is_none() || payload(&o) == base_payload);
+        if same {
+            continue;
+        }
+        all_equal = false;
+        let api: Vec<String> = case.defines.iter().enumerate().filter(|(i, _)| mask & (1 << i) != 0).map(|(_, d)| format!("{}={}", d.0, d.1)).collect();
+        let witness = defcase_json(case)
+            .set("api_mask", mask as u64)
+            .set("api_defines", Json::Arr(api.iter().map(Json::str).collect()))
+            .set("file_text_of_split", text)
+            .set("all_in_file", clip(&base.observable(), 3000))
+            .set("this_split", clip(&o.observable(), 3000));
+        let sig = match &o {
+            Outcome::Panic(c) if case.pastes_define_value && c.message.contains("unlex does not support unlocated tokens") => {
+                "defines:panic:paste-of-api-define-value:unlex does not support unlocated tokens".to_string()
+            }
+            Outcome::Panic(c) => format!("defines:panic:{}", c.signature()),
+            Outcome::Budget { .. } => "defines:step-budget".to_string(),
+            _ if !same_verdict && case.value_has_paste => format!("defines:paste-inside-api-define-value:verdict:{}-in-file-{}-on-api", base.class(), o.class()),
+            _ if !same_verdict => format!("defines:verdict:{}-in-file-{}-on-api", base.class(), o.class()),
+            _ => "defines:payload-differs".to_string(),
+        };
+        report.violation(
+            &sig,
+            &format!("compile(defines=[{}]) gives {} but the same defines as #define lines give {}", api.join(", "), o.brief(), base.brief()),
+            witness,
+        );
+    }
+    if all_equal {
+        report.count("defines:agree:all-splits-equal");
+        report.distinct(files_hash("defines", &Files::single("main.rssl", &case.text), &case.defines));
+        if report.want_sample() && report.samples.len() < 1 {
+            report.sample(defcase_json(case).set("verdict_all_splits", base.brief()));
+        }
+    }
+}
+
+// ------------------------------------------------------------------------------------------------
+// run / replay
+// ------------------------------------------------------------------------------------------------
+
+fn run(ctx: &Ctx) -> Report {
+    let mut total = Report::new();
+    // the three workloads share the deadline: 50 % / 20 % / 30 %
+    let n1 = ctx.tier.pick(60_000, 1_500_000);
+    let n2 = ctx.tier.pick(20_000, 300_000);
+    let n3 = ctx.tier.pick(700, 20_000);
+    let sub = |frac: f64| -> Ctx {
+        let mut c = ctx.clone();
+        c.deadline_s = ctx.start.elapsed().as_secs_f64() + ctx.deadline_s * frac;
+        c.start = ctx.start;
+        c
+    };
+    let seed = ctx.seed;
+    let r1 = par::run_cases(&sub(0.5), n1, |index, report| {
+        let mut rng = Rng::for_case(seed, 0xC12_1, index);
+        let text = gen_macro_program(&mut rng);
+        let files = Files::single("main.rssl", &text);
+        examine_pp("macro", &files, "main.rssl", true, report, &|| Json::obj().set("index", index));
+    });
+    rename_counter(&mut total, r1, "macro");
+    let r2 = par::run_cases(&sub(0.2), n2, |index, report| {
+        let mut rng = Rng::for_case(seed, 0xC12_2, index);
+        let files = gen_include_graph(&mut rng);
+        examine_pp("include", &files, "main.rssl", true, report, &|| Json::obj().set("index", index));
+    });
+    rename_counter(&mut total, r2, "include");
+    let r3 = par::run_cases(&sub(0.3), n3, |index, report| {
+        let mut rng = Rng::for_case(seed, 0xC12_3, index);
+        let case = gen_define_case(&mut rng);
+        examine_defines(&case, report);
+    });
+    rename_counter(&mut total, r3, "defines");
+    total
+}
+
+/// `cases_run` of each workload is kept under its own name
+fn rename_counter(total: &mut Report, mut r: Report, w: &str) {
+    if let Some(n) = r.counters.remove("cases_run") {
+        r.counters.insert(format!("{}:cases_run", w), n);
+    }
+    let notes = std::mem::take(&mut r.notes);
+    for n in notes {
+        r.notes.push(format!("{}: {}", w, n));
+    }
+    total.merge(r);
+}
+
+fn replay(ctx: &Ctx, witness: &Json) -> Report {
+    // on a worker-sized stack: the unbounded recursion of KF-C12-2 must run into the step budget, not into the
+    // 8 MB stack of the main thread
+    std::thread::scope(|scope| {
+        std::thread::Builder::new()
+            .stack_size(par::WORKER_STACK)
+            .spawn_scoped(scope, || replay_here(ctx, witness))
+            .expect("spawn replay thread")
+            .join()
+            .unwrap_or_else(|_| {
+                let mut r = Report::new();
+                r.inconclusive("replay thread died");
+                r
+            })
+    })
+}
+
+fn replay_here(_ctx: &Ctx, witness: &Json) -> Report {
+    let mut report = Report::new();
+    match witness.get_str("workload").unwrap_or("") {
+        "defines" => {
+            let case = defcase_from_json(witness);
+            examine_defines(&case, &mut report);
+        }
+        w @ ("macro" | "include") => {
+            let files = Files::from_json(witness.get("files").unwrap_or(&Json::Null));
+            let entry = witness.get_str("entry").unwrap_or("main.rssl").to_string();
+            examine_pp(w, &files, &entry, false, &mut report, &|| Json::obj());
+        }
+        other => report.inconclusive(&format!("witness has unknown workload '{}'", other)),
+    }
+    report
+}
